@@ -163,3 +163,43 @@ func VH_C11_batchkey(p1 int, p2 int, capacity int) {
 	vobserve("second", vhB(e2 == nil))
 	vassert((e2 == nil) == (c2 == nil), "cache-second-batchverify-verdict-equals-uncached")
 }
+
+// C11(c): a plain verification followed by a batch verification of the same signature object
+// (and the other way round). The plain message has the shape id || length || m, the batch is
+// {id: m}: the two queries are different and must not share a cache entry.
+func VH_C11_cross(order int, capacity int) {
+	n := 4
+	w := VNewWorld(1, n, false, 0, vsymbolic())
+	plain, inner := crypto.NewECDSA(w.Cfg), crypto.NewECDSA(w.Cfg)
+	cached := &Cache{impl: inner, capacity: capacity, entries: make(map[string]*list.Element, capacity)}
+	m := []byte{nondetU8("m")}
+	id := hotstuff.ID(1)
+	long := append(append(append([]byte{}, id.ToBytes()...), hotstuff.View(len(m)).ToBytes()...), m...)
+	claimed := hotstuff.ID(nondetU32("claimed"))
+	owner := nondetInt("owner")
+	vassume(owner >= 0 && owner <= n)
+	var sb []byte
+	if nondetBool("signs-the-long-message") {
+		sb = crypto.VSignAs(owner, n, long, w.Sym, false)
+	} else {
+		sb = crypto.VSignAs(owner, n, m, w.Sym, false)
+	}
+	sig := crypto.NewMulti(crypto.RestoreECDSASignature(sb, claimed))
+	batch := map[hotstuff.ID][]byte{id: m}
+	for step := 0; step < 2; step++ {
+		if (step == 0) == (order == 0) {
+			e1 := plain.Verify(sig, long)
+			e2 := cached.Verify(sig, long)
+			vobserve("verify", vhB(e1 == nil))
+			if e1 == nil {
+				vcover("verify-accepts")
+			}
+			vassert((e1 == nil) == (e2 == nil), "cache-verify-verdict-equals-uncached")
+		} else {
+			e1 := plain.BatchVerify(sig, batch)
+			e2 := cached.BatchVerify(sig, batch)
+			vobserve("batch", vhB(e1 == nil))
+			vassert((e1 == nil) == (e2 == nil), "cache-batchverify-verdict-equals-uncached")
+		}
+	}
+}
